@@ -10,6 +10,26 @@ BASELINE_OFF = ("for m in $(cat /w/out/gomods.txt); do MF=$(cd /repo/$m && . /w/
 
 # id -> (technique, level text, level note, design ref)
 CHECKS = {
+    "C02": (
+        "TLC checks the transcribed insert/remove (MkvsTrie.tla) against the canonical trie of the contents for all histories; "
+        "TLC-emitted behaviours replayed on real trees (3 backends, cache classes) comparing the real root with the hash formula "
+        "recomputed over the spec's shape; (contents, root) bijection validated by TLC (TraceRoots.tla)",
+        "Exhaustive TLC check that the bit-level transcription of doInsert/doRemove is canonical for every history over an "
+        "adversarial key universe; every distinct (operation, model state) pair plus random deep histories replayed on real trees "
+        "with commits/reopens, the real root compared after every operation; all recorded (contents, root) pairs must form a bijection.",
+        "Trusted: TLC, JSON bridge, SHA-512/256 collision resistance. Keys <= 3 bytes, values <= 2 bytes. Value-cache limits are "
+        "exercised under C03.",
+        "DESIGN.md 4 C02"),
+    "C03": (
+        "Ordered-map + overlay-stack model (Mkvs.tla) checked by TLC; transition-covering and random behaviours replayed on real "
+        "trees/overlays with every read compared after every operation; random-driver traces validated by TLC (TraceMkvs.tla)",
+        "The model is the oracle (the property is a refinement). Every distinct (operation, model state) pair up to overlay depth 2-3 "
+        "and random 40-step behaviours are executed on no-db/badger/pathbadger trees with ample, tight, tiny node caches and a "
+        "1-byte value cache; Get of every key, Seek+Next from every position and a full iteration are compared after every step; "
+        "random traces over larger alphabets are accepted by TLC only if every answer is the model's.",
+        "Trusted: TLC, JSON bridge. Non-nil values; no mutation during iteration; two open known findings (value-cache eviction of "
+        "an embedded leaf under a dirty parent; node cache <= path depth) are matched narrowly and everything else still alarms.",
+        "DESIGN.md 4 C03"),
     "C11": (
         "TLC proves PoolOp.tla (transcription of commitment.Pool) => PoolRule.tla (declarative rule); transition-covering "
         "behaviours replayed on the real Pool; real outcomes validated by TLC against TracePoolRule.tla (rule only)",
